@@ -131,8 +131,7 @@ theorem negotiated_llc (A B : LlcOpts) (hB : ValidLlc B) :
   · simp [encodeGb, ht]
   · simp [magic]; omega
   · have hdrop : (magic ++ t).drop 3 = t := by simp [magic]
-    simp only [llcLink, gbAccepted_magic t (h3 hv), if_true, hdrop, hd, Py.bind_ok,
-      takeover_sendPax A B hB]
+    simp only [llcLink, gbAccepted_magic t (h3 hv), if_true, hdrop, hd, takeover_sendPax A B hB]
 
 /-- the general bytes always fit: `gbi[0:48]` / `gbt[0:47]` never cut a TLV -/
 theorem gb_length (o : LlcOpts) (gb : Bytes) (h : encodeGb (sendPax o) = .ok gb) : gb.length ≤ 20 := by
@@ -332,10 +331,16 @@ theorem paxLoop_safe (fuel : Nat) : ∀ (d : Bytes) (p : Pax), Safe (· = Exc.de
       · exact Safe.bind' (paxTlv_safe _ _ _ _) (fun a => ih _ a)
     · exact Safe.ok _
 
-theorem llcLink_safe (o : LlcOpts) (gb : Bytes) : Safe (· = Exc.decodeError) (llcLink o gb) := by
+/-- `llc.activate` never raises on peer general bytes: a configuration or "no link" -/
+theorem llcLink_total (o : LlcOpts) (gb : Bytes) : ∃ r, llcLink o gb = .ok r := by
   unfold llcLink
-  apply Safe.ite
-  · exact Safe.bind' (paxLoop_safe _ _ _) (fun a => Safe.ok _)
-  · exact Safe.ok _
+  split
+  · cases h : decodeTlvs (gb.drop 3) with
+    | ok r => exact ⟨_, rfl⟩
+    | error e =>
+      have := paxLoop_safe _ _ _ e h
+      subst this
+      exact ⟨none, rfl⟩
+  · exact ⟨none, rfl⟩
 
 end NfcVerif.Activate
